@@ -26,10 +26,10 @@ type incSolver struct {
 	secs      float64
 }
 
-const incHardTimeout = 400 * time.Millisecond
+const incHardTimeout = 700 * time.Millisecond
 
 func (e *Engine) incStart() *incSolver {
-	cmd := exec.Command("z3-new", "-in", "-t:300")
+	cmd := exec.Command("z3-new", "-in", "-t:80")
 	in, err := cmd.StdinPipe()
 	if err != nil {
 		return &incSolver{dead: true}
